@@ -11,7 +11,8 @@ import gen_cube as G
 ID = "C18"
 LEAN_MODULES = ["CatiiProps.C18"]
 USES_MODEL = True
-RULE = ("array dimensions as C03 (1..3 dims, extents <=3, N<=14); facts (N,) / (N,K<=3) with any missing pattern in both "
+RULE = ("array dimensions as C03 (1..3 dims, extents <=3, N<=14) plus a wide stream (1-2 dims whose extent / product of extents "
+        "straddles 2^8, thorough: 2^16, N<=400); facts (N,) / (N,K<=3) with any missing pattern in both "
         "argument forms, weights none / positive array; both policies; per cell the statistic is recomputed from the rows of "
         "the cell with NumPy: stddev (ddof=1; weighted: reliability-weighted variance x n/(n-1)), quantile for p in {0, 0.1, "
         "0.25, 0.5, 0.9, 1} (unweighted, linear interpolation), weighted-quantile laws (missing rule, invariance under "
@@ -26,10 +27,10 @@ TOL = 1e-9
 
 def cell_rows(dense, ishape):
     N = len(dense[0]) if dense else 0
-    out = {}
-    for cell in itertools.product(*[range(s) for s in ishape]):
-        out[cell] = [r for r in range(N) if all(int(d[r]) == v for d, v in zip(dense, cell))]
-    return out
+    groups = {}
+    for r in range(N):
+        groups.setdefault(tuple(int(d[r]) for d in dense), []).append(r)
+    return {cell: groups.get(cell, []) for cell in itertools.product(*[range(s) for s in ishape])}
 
 
 def close(a, b):
@@ -172,9 +173,14 @@ def check(ctx, case, reqs, pend):
                         ctx.oracle_fail("weighted quantile(p=%s) cell %s col %s = %r outside [min, max] = [%r, %r] of its valid values" % (
                             p, cell, c, got, float(xs.min()), float(xs.max())), d, cls="C18-wquantile-range")
                     if len(reqs) < 400:
-                        order = np.argsort(xs, kind="stable")
+                        # ties between equal values are ordered by NumPy's default (unstable) argsort in the real code and
+                        # the weighted interpolation depends on that order: hand the model the rows in the same order
+                        a_all = np.where(ok, x, np.nan)
+                        ind = a_all.argsort()
+                        ind = ind[~np.isnan(a_all[ind])]
+                        xo, wo = x[ind], wv[rows][ind]
                         reqs.append({"op": "stats", "kind": "wquantile", "p": R(p),
-                                     "xs": [[R(xs[i]), R(ws[i])] for i in order]})
+                                     "xs": [[R(a), R(b)] for a, b in zip(xo, wo)]})
                         pend.append((dict(d, cell=list(cell)), "wquantile", got))
                     if scaled is not None and not close(got, float(at(scaled, cell, c))):
                         ctx.oracle_fail("weighted quantile(p=%s) cell %s changes from %r to %r when all weights are multiplied by 4" % (
@@ -274,8 +280,16 @@ def run(ctx):
     core.load_catii()
     warnings.simplefilter("ignore")
     reqs, pend = [], []
-    for _ in range(ctx.n(30, 400)):
-        case = A.gen_case(ctx.rng, multi_axis=False, k=ctx.rng.choice([1, 1, 2, 3]), N=ctx.rng.choice([1, 2, 4, 7, 10, 14]))
+    nwide = ctx.n(4, 40)
+    for it in range(ctx.n(30, 400) + nwide):
+        if it < nwide:      # extents straddling the narrow coordinate types of the array cube
+            while True:
+                case = A.gen_case(ctx.rng, wide="u16" if (ctx.tier == "thorough" and it % 8 == 7) else "u8")
+                if it % 2 or case["K"]:
+                    break
+            ctx.hit("wide_extents")
+        else:
+            case = A.gen_case(ctx.rng, multi_axis=False, k=ctx.rng.choice([1, 1, 2, 3]), N=ctx.rng.choice([1, 2, 4, 7, 10, 14]))
         w = case["weights"]
         if w is not None:
             if w[0] == "scalar":
